@@ -181,6 +181,23 @@ def script_has_abort(case):
     return False
 
 
+def has_abort(case, obs):
+    """A drop of a read half / whole stream that may be abortive.  A side that has already READ the
+    peer's EOF (a read with room returned 0 bytes) has no unread inbound data and none can come: its
+    drop is graceful whatever is dropped."""
+    res = {(r[0], r[1], r[2]): r[3] for r in obs["res"]}
+    eof_read = set()
+    for k, st in enumerate(case["steps"]):
+        for h in sorted(st.get("hosts", {}), key=int):
+            for i, cmd in enumerate(st["hosts"][h]):
+                r = res.get((k, int(h), i))
+                if cmd[0] == "read" and cmd[2] > 0 and isinstance(r, list) and r[0] == "ok" and r[1] == []:
+                    eof_read.add(cmd[1])
+                elif cmd[0] in ("drop", "drop_r") and cmd[1] not in eof_read:
+                    return True
+    return False
+
+
 def c02_oracle(case, obs):
     out = []
     cfg = case["cfg"]
@@ -193,7 +210,7 @@ def c02_oracle(case, obs):
         # without any drop of a read half / whole stream and without partitions no socket entry is
         # ever removed, so no RST exists: an error on the reader's side is then itself the failure
         graceful = (st["closed_w"] and not st["lossy"] and not st["rdropped"]
-                    and not st["broken"] and not script_has_abort(case))
+                    and not st["broken"] and not has_abort(case, obs))
         if graceful and cfg["mode"] == "remote" and in_flight_at_end(case, obs, whost):
             graceful = False
         if graceful and st["reads_after_close"]:
@@ -359,7 +376,7 @@ class Spec(PropSpec):
             "into_split / reunite and drops of either half on both ends; on remote pairs the link is held and the controller "
             "matures chosen wire positions through Sim::links in a scripted order (all permutations of <= 4 segments in quick, "
             "<= 6 in thorough), with partitions mid-stream; deterministic families: request/response, half-close (shutdown then "
-            "drop), FIN parked at a full channel, a write_all task blocked on a full window and then reset, writes > 64 KiB "
+            "drop), EOF read then the own direction finished by dropping, FIN parked at a full channel, a write_all task blocked on a full window and then reset, writes > 64 KiB "
             "through write_all and try_write loops (compared by length + digest); a case is non-trivial when bytes were "
             "written and read; "
             "distinct = distinct (mode, capacity, script)")
@@ -384,7 +401,7 @@ class Spec(PropSpec):
         for i in range(n):
             r = i % 6
             if r == 4:
-                cases.append(F.gen_reqresp(ctx.rng) if (i // 6) % 2 else F.gen_halfclose(ctx.rng))
+                cases.append([F.gen_reqresp, F.gen_halfclose, F.gen_eof_then_drop][(i // 6) % 3](ctx.rng))
             elif r == 5:
                 cases.append(F.gen_parked(ctx.rng) if (i // 6) % 3 else F.gen_blocked_writer(ctx.rng))
             else:
